@@ -228,15 +228,15 @@ def rnd_history(rnd, nops, zst):
     return prog
 
 
-def traces(ctx, zst=None):
+def traces(ctx, zst=None, release=False):
     if zst is None:
         zst = ctx.pid in ("C18", "C07")
     nhist, nops = (250, 50) if ctx.tier == "quick" else (4000, 70)
     prog = []
     for _ in range(nhist):
         prog += rnd_history(ctx.rnd, nops, zst)
-    events = run_harness("guest", prog, os.path.join(WORK, "tr_guest_%s.ev.ndjson" % ctx.pid), ctx=ctx)
-    judge_chunks(ctx, "tr_guest_" + ctx.pid, events)
+    events = run_harness("guest", prog, os.path.join(WORK, "tr_guest_%s.ev.ndjson" % ctx.pid), ctx=ctx, release=release)
+    judge_chunks(ctx, "tr_guest_" + ctx.pid + ("r" if release else ""), events)
     ctx.cov["traces_validated_against_impl"] += nhist
     ctx.sample({"kind": "recorded history validated by Trace_GuestMem", "events":
                 [{"op": e["op"], "a": e["a"], "r": e["r"]} for e in events[:10]]})
